@@ -515,5 +515,46 @@ mod verif_c19d {
         kani::cover!(expected.is_some());
         kani::cover!(fill.is_some() && in_rows && expected.is_none());
     }
+
+    /// C04 for the triangle draw loop (`for (line, kind) in ScanlineIterator { .. fill_solid(..)? }`): when the
+    /// k-th target call fails, draw() returns exactly that error, makes no further call, and the calls before
+    /// it are those of the fault-free run. Fill rows through the pure-function stand-in, <= 3 rows.
+    //@harness prop=C04,C19 kind=bounded tier=quick class=P bound="bounding box height <= 3 rows (draw loop), fault at call k <= 4" timeout=900 kani="--no-assertion-reach-checks" fns=src/primitives/triangle/styled.rs::Triangle::draw_styled
+    #[kani::proof]
+    #[kani::unwind(5)]
+    #[kani::stub(crate::primitives::triangle::Triangle::scanline_intersection, crate::primitives::triangle::scanline_iterator::verif_c19i::row_fixed)]
+    #[kani::stub(crate::primitives::triangle::Triangle::is_collapsed, crate::primitives::triangle::scanline_iterator::verif_c19i::collapsed_fixed)]
+    fn c04_triangle_fill_fault_at_k() {
+        init_fixed();
+        kani::assume(unsafe { verif_rows_nonempty() });
+        let py = || (kani::any::<u8>() & 3) as i32;
+        let y0: i32 = kani::any();
+        kani::assume(-1024 <= y0 && y0 <= 1024);
+        let v = |dy: i32| Point::new(any_point(1024).x, y0 + dy);
+        let (d1, d2, d3) = (py(), py(), py());
+        kani::assume(d1 <= 2 && d2 <= 2 && d3 <= 2);
+        let t = Triangle::new(v(d1), v(d2), v(d3));
+        let mut style = PrimitiveStyle::<Gray8>::with_fill(Gray8::new(50));
+        style.stroke_alignment = if kani::any() { StrokeAlignment::Center } else { StrokeAlignment::Outside };
+        let styled = t.into_styled(style);
+        let k: u32 = kani::any();
+        kani::assume(k >= 1 && k <= 4);
+        let q = any_point(8192);
+        let mut ok = ProbeNative::<Gray8>(ProbeState::new(q, crate::verif_probe::everything(), crate::verif_probe::everything()));
+        ok.0.log_upto = k;
+        styled.draw(&mut ok).unwrap();
+        let n = ok.0.calls;
+        assert!(n == t.bounding_box().size.height);
+        let mut f = ProbeNative::<Gray8>(ProbeState::new(q, crate::verif_probe::everything(), crate::verif_probe::everything()));
+        f.0.fail_at = k;
+        let r = styled.draw(&mut f);
+        if k <= n {
+            assert!(r == Err(k) && f.0.calls == k && !f.0.called_after_fail && f.0.log == ok.0.log);
+        } else {
+            assert!(r.is_ok() && f.0.calls == n);
+        }
+        kani::cover!(k == 2 && n == 3);
+        kani::cover!(k == 4 && n == 3);
+    }
 }
 //@end
